@@ -326,9 +326,10 @@ class Store:
         return (tuple(items), vals, lts, les)
 
 
+WIDTH_FN_KEY = None     # key of candid::de's fn(PrimitiveType) -> usize, set by the caller (found by signature: shared.width_fn_key)
 CALL_ASSUMPTIONS = {
-    r"candid::de::primitive_byte_cost$": (1, 8, "primitive_byte_cost returns the width of a fixed-width primitive, 1/2/4/8 "
-                                                "(its table is checked against the type names by the primitive matrix rule)"),
+    "@width_fn": (1, 8, "the decoder's fn(PrimitiveType) -> usize returns the width of a fixed-width primitive, 1/2/4/8 "
+                        "(its table is checked against the type names by the primitive matrix rule)"),
     r"std::io::cursor::Cursor::<T>::position$": (0, 2**63 - 1,
         "the cursor over the input is only ever positioned inside the input (every set_position argument is bounded by the "
         "slice length), and a slice is at most isize::MAX bytes long"),
@@ -1059,7 +1060,7 @@ class Interp:
             if vid is None:
                 vid = self.fresh(s2, dty, ("call", bi))
                 for rx, (lo, hi, why) in CALL_ASSUMPTIONS.items():
-                    if re.search(rx, name):
+                    if (name == WIDTH_FN_KEY) if rx == "@width_fn" else re.search(rx, name):
                         cur = s2.val.get(vid)
                         s2.val[vid] = AV(lo, hi) if cur is None else cur.meet(AV(lo, hi))
                         self.res.assumptions.add(f"{name.rsplit('::', 2)[-2]}::{name.rsplit('::', 1)[-1]}: {why}")
